@@ -47,10 +47,18 @@
 (*     node's publishes fail its entries may run out everywhere (its own    *)
 (*     list included), so the settle time of the convergence invariants is  *)
 (*     counted from the last Start/Stop/Crash/failed publish.               *)
+(*   Extra: C18 only needs a live node to publish OFTEN ENOUGH.  "none": a    *)
+(*     register is published exactly when the refresh ticker fires (what the *)
+(*     code does).  "start": Start may also publish one at once (an eager    *)
+(*     announcement).  "any": additionally a node may publish one whenever   *)
+(*     it handles a message.  A register published while an earlier one of   *)
+(*     the same sender is still in flight to a receiver travels with it      *)
+(*     (they are handed over together, by the earlier one's deadline).  The  *)
+(*     convergence invariants are checked for all three.                     *)
 (*   Backoff = FALSE: the node keeps the refresh period it asked the clock   *)
 (*     for (what the code does).  Backoff = TRUE: an implementation may      *)
 (*     stretch its period while publishing fails (slow[n]: the period it     *)
-(*     currently asks for is outside the envelope Rlo..Rhi; the ticker then  *)
+(*     currently asks for is LONGER than the envelope Rlo..Rhi; the ticker then  *)
 (*     fires at any time >= Rlo after the previous firing), but the first    *)
 (*     successful publish must bring the period back into the envelope; the  *)
 (*     settle time then counts from that publish.                            *)
@@ -66,6 +74,7 @@ CONSTANTS Addr,       \* record: instance id -> address token
           D,          \* maximal delivery delay in ticks
           MaxEvents,  \* bound on membership events
           MaxFails,   \* bound on failed Publish calls
+          Extra,      \* "none" | "start" | "any": register publishes beyond the ticker's (see above)
           Backoff,    \* TRUE: the refresh period may be stretched while publishes fail
           Closed,     \* TRUE: entry still listed at now = expiry
           ObserveCb,  \* TRUE: the projection carries the callback firings
@@ -105,11 +114,13 @@ Abs == [ status     |-> status,
                                           THEN [addrSet |-> PeerAddrs(n), len |-> PeerCount(n)]
                                           ELSE [addrSet |-> {}, len |-> 0]],
          pendingSet |-> {[to |-> x[1], from |-> x[2], kind |-> x[3]] : x \in InFlight},
-         offSet     |-> {n \in Nodes : slow[n]},   \* nodes whose requested refresh period is outside Rlo..Rhi
+         offSet     |-> {n \in Nodes : slow[n]},   \* nodes whose requested refresh period is longer than Rhi
          cbSet      |-> IF ObserveCb THEN fired ELSE {} ]
 Hid == [ ent |-> ent, hashed |-> hashed, hashIds |-> hashIds, sincePub |-> sincePub,
          fl |-> fl, quiet |-> quiet, events |-> events, fails |-> fails, slow |-> slow, fired |-> fired ]
 
+\* node n publishes a register to the subscribers in S, on top of the channel content f
+SendR(f, n, S) == [r \in Nodes |-> IF r \in S /\ f[r][n]["R"] < 0 THEN [f[r] EXCEPT ![n]["R"] = 0] ELSE f[r]]
 NoEnt == [m \in Nodes |-> Gone]
 NoMsg == [m \in Nodes |-> [k \in Kinds |-> -1]]
 
@@ -138,7 +149,9 @@ Start(n) ==
   /\ quiet' = 0
   /\ events' = events + 1
   /\ fired' = {}
-  /\ UNCHANGED <<hashed, hashIds, fl, fails, slow>>
+  /\ \E eager \in (IF Extra = "none" THEN {FALSE} ELSE BOOLEAN) :
+        fl' = IF eager THEN SendR(fl, n, Up \cup {n}) ELSE fl
+  /\ UNCHANGED <<hashed, hashIds, fails, slow>>
   /\ act' = [name |-> "Start", n |-> n]
 
 TickerMayFire(n) == /\ status[n] = "up"
@@ -148,7 +161,7 @@ TickerMayFire(n) == /\ status[n] = "up"
 \* the ticker case of the Ready goroutine: publish R<address>,<id> to every subscriber (incl. itself)
 PublishTick(n) ==
   /\ TickerMayFire(n)
-  /\ fl' = [r \in Nodes |-> IF status[r] = "up" THEN [fl[r] EXCEPT ![n]["R"] = 0] ELSE fl[r]]
+  /\ fl' = SendR(fl, n, Up)
   /\ sincePub' = [sincePub EXCEPT ![n] = 0]
   /\ slow' = [slow EXCEPT ![n] = FALSE]           \* recovered: the period is back in the envelope
   /\ quiet' = IF slow[n] THEN 0 ELSE quiet
@@ -171,7 +184,8 @@ PublishFail(n) ==
 \* listen(): one message handled by subscriber r; then checkHash()
 Deliver(r, m, k) ==
   /\ fl[r][m][k] >= 0
-  /\ fl' = [fl EXCEPT ![r][m][k] = -1]
+  /\ \E extra \in (IF Extra = "any" THEN BOOLEAN ELSE {FALSE}) :
+        fl' = IF extra THEN SendR([fl EXCEPT ![r][m][k] = -1], r, Up) ELSE [fl EXCEPT ![r][m][k] = -1]
   /\ ent' = [ent EXCEPT ![r][m] = IF k = "R" THEN T ELSE Gone]
   /\ LET ids == {i \in Nodes : ent'[r][i] > Gone}
          changed == ~hashed[r] \/ ids # hashIds[r]
@@ -292,7 +306,7 @@ EventuallyAgreed == <>[]Agreed
 HashCatchesUp == \A n \in Nodes : [](status[n] = "up" => <>(status[n] # "up" \/ (hashed[n] /\ hashIds[n] = Vis(n))))
 
 Params == [addr |-> Addr, gaps |-> Gaps, T |-> T, D |-> D, rlo |-> Rlo, rhi |-> Rhi, unitMs |-> UnitMs,
-           closed |-> Closed, observeCb |-> ObserveCb, backoff |-> Backoff]
+           closed |-> Closed, observeCb |-> ObserveCb, backoff |-> Backoff, extra |-> Extra]
 ASSUME PrintT(ToJson([params |-> Params]))
 Dump == PrintT(ToJson([fa |-> act.name, act |-> act', fabs |-> Abs, fhid |-> Hid, tabs |-> Abs', thid |-> Hid']))
 View == <<status, ent, hashed, hashIds, sincePub, fl, quiet, events, fails, slow, fired>>
